@@ -30,12 +30,12 @@ Extraction "sbmodel.ml"
   parser_init rewind seek_to_next_block find_first read_current_block read_current_block_ex block_valid
   init_spec all_records find_spec tail_error body_of load
   (* C11 *)
-  plan_init num_entries get_point evaluate_at encode_plan eval_spec wf_splan
+  plan_init plan_empty num_entries get_point evaluate_at encode_plan eval_spec wf_splan
   (* C01 C07 C08 *)
-  traj_init seek cursor0 position_of velocity_of acceleration_of landing_cursor total_duration_msec segments segments_prefix
+  traj_init traj_empty seek cursor0 position_of velocity_of acceleration_of landing_cursor total_duration_msec segments segments_prefix
   tol_at final_tol traj_pos encode_traj wf_straj total_ms bezier make_bezier make_bezier_c horner deriv scale stretch add_constant QOps
   (* C10 *)
-  yaw_init yaw_is_empty yseek ycursor0 ylanding_cursor yaw_of yaw_rate_of yaw_total_duration_msec
+  yaw_init yaw_empty yaw_is_empty yseek ycursor0 ylanding_cursor yaw_of yaw_rate_of yaw_total_duration_msec
   yaw_tol yaw_tol_at yaw_spec rate_spec encode_yaw wf_syaw
   (* C02 C09 *)
   player_fresh light_seek obs_color obs_pyro obs_ended obs_next state_at spec_color spec_pyro spec_ended spec_next decode
